@@ -17,7 +17,8 @@ RULE = (
     "nullable dtypes, pa.Array, pa.ChunkedArray, Arrow dictionary, Arrow-backed pandas, polars) AND values (NumPy, "
     "pandas Series, nullable and Arrow-backed pandas, pa.Array, pa.ChunkedArray, polars; arbitrary chunk boundaries "
     "incl. empty chunks, misaligned between keys and values; collections as dict / pandas / polars DataFrame), for "
-    "the 8 reductions, transform, cumulative, rolling extrema and shift.  Non-trivial = the rendering differs from the "
+    "the 8 reductions, transform, cumulative, rolling extrema and shift; integer columns with nulls (nullable pandas, "
+    "Arrow-backed pandas, polars) are compared with the reference model in a separate sub-check.  Non-trivial = the rendering differs from the "
     "base in container AND (has a null, or is chunked with a boundary inside a group, or is temporal / narrow int).  "
     "Distinct = case hash."
 )
@@ -27,8 +28,8 @@ ORACLE = ("normalised results of the two renderings are equal (labels; numbers u
           "sums of narrow ints equal the exact Python sum")
 ASSUMPTIONS = [
     "input classes the library rejects by type alone (fixed table in vlib/rejections.py) are counted, not failed",
-    "nullable / Arrow-backed INTEGER columns that contain nulls are converted to float64 by the library: for those the dtype "
-    "and >2^53 exactness predicates are not applied (recorded as observation in DESIGN.md)",
+    "integer columns WITH nulls have no NumPy rendering: the sub-check int_with_nulls compares them with the reference model "
+    "(known finding nullable-int-with-nulls-to-float64)",
 ]
 
 KEY_CONTAINERS = {
@@ -254,7 +255,61 @@ def check(case, ctx):
                     raise Violation("int-sum-wrap", f"column {j} label {lab}: exact sum {e} got {got.get(lab)!r}")
 
 
+# ---- integer columns WITH nulls (only expressible in nullable / Arrow-backed / polars containers) --------------------
+@st.composite
+def intnull_case(draw, variant):
+    n = draw(st.sampled_from([2, 3, 4, 6, 8, 12]))
+    keys = [draw(S.key_column(n, types=("int", "str"), max_labels=3))]
+    dtype = draw(st.sampled_from(["int64", "int32", "int16", "uint8", "uint64"]))
+    v = draw(S.value_column(n, dtypes=(dtype,), regime="exact"))
+    nulls = draw(st.lists(st.sampled_from([False, False, True]), min_size=n, max_size=n))
+    if not any(nulls):
+        nulls[draw(st.integers(0, n - 1))] = True
+    v["vals"] = [None if z else x for x, z in zip(v["vals"], nulls)]
+    return {"n": n, "keys": keys, "vals": [v], "vc": draw(st.sampled_from(["series_nullable", "pd_arrow", "pl"])),
+            "op": draw(st.sampled_from(["min", "max", "first", "last", "sum", "count", "cummax", "cummin"])), "mask": None, "sort": True}
+
+
+def intnull_check(case, ctx):
+    n, op = case["n"], case["op"]
+    vspec = case["vals"][0]
+    key = data.render_key(case["keys"][0], "np")
+    values = data.render_val(vspec, case["vc"])
+    big = any(x is not None and abs(x) > 2**53 for x in vspec["vals"])
+    ctx.seen("int_with_nulls", case, True, [f"intnull:vc:{case['vc']}", f"intnull:op:{op}", f"intnull:dtype:{vspec['dtype']}", f"intnull:>2^53:{big}"])
+    res = getattr(GroupBy(key), op)(values)
+    got = data.series_values(res)
+    dt = res.dtype
+    pv = data.val_py(vspec)
+    if op in ("cummax", "cummin"):
+        from .c08 import prefix_model
+
+        exp = prefix_model(op[3:], gbops.labels_of(case), pv, range(n), n, True)
+        for i, (e, g) in enumerate(zip(exp, got)):
+            if e == ("skip",) or e is None:
+                continue
+            if g is None or float(g) != float(e) or int(g) != e:
+                raise Violation(f"intnull:value:{op}", f"row {i}: exact {e} got {g!r} (dtype {dt})", extra={"intnull": True})
+    else:
+        labels, pos, groups = gbops.model_groups(case)
+        exp = gbops.expected_reduction(case, op, vspec, groups)
+        gmap = dict(zip(data.index_labels(res.index), got))
+        for lab, e in exp.items():
+            g = gmap.get(lab)
+            if e is None:
+                continue
+            if g is None or int(g) != e or float(g) != float(e):
+                raise Violation(f"intnull:value:{op}", f"label {lab}: exact {e} got {g!r} (dtype {dt})", extra={"intnull": True})
+    if op in ("min", "max", "first", "last", "cummax", "cummin"):
+        want = expected_logical(vspec, case["vc"])
+        lg = logical_dtype(dt)
+        if lg[0] != want[0] or lg[1] != want[1]:
+            raise Violation(f"intnull:dtype:{op}", f"input {vspec['dtype']} (with nulls) in {case['vc']} gave {dt}", extra={"intnull": True})
+
+
 SUBS = [
+    Sub("int_with_nulls", intnull_check, strategy=lambda tier, v: intnull_case(v), variants=("-",), examples=(1500, 30000), replicas=(1, 2),
+        cost={"-": 60}),
     Sub("render", check, strategy=lambda tier, v: case_strategy(v), variants=tuple(VARIANTS), examples=(6000, 120000),
         replicas=(5, 10), cost={v: 400 for v in VARIANTS}),
 ]
